@@ -87,15 +87,14 @@ func (s *sharedEntryAttributes) toJsonInternal(onlyNewOrUpdated bool, ietf bool)
 			return result, nil
 		case s.schema.GetContainer().IsPresence && s.containsOnlyDefaults():
 			// Presence container without any childs
-			if onlyNewOrUpdated {
-				// presence containers have leafvariantes with typedValue_Empty, so check that
-				if s.leafVariants.shouldDelete() {
-					return nil, nil
-				}
-				le := s.leafVariants.GetHighestPrecedence(false, false)
-				if le == nil || (onlyNewOrUpdated && !(le.IsNew || le.IsUpdated)) {
-					return nil, nil
-				}
+			// presence containers have leafvariantes with typedValue_Empty, so check that: a container
+			// nobody holds (any more) is part of neither view
+			le := s.leafVariants.GetHighestPrecedence(false, false)
+			if le == nil {
+				return nil, nil
+			}
+			if onlyNewOrUpdated && !(le.IsNew || le.IsUpdated) {
+				return nil, nil
 			}
 			return map[string]any{}, nil
 		default:
